@@ -1,6 +1,6 @@
 #!/bin/bash
 # tools/seedcheck.sh CNN [tier]  -- verify a seeded change in /tmp/seed-out/CNN and run ./check CNN against it
-pid=$1; tier=${2:-quick}; out=/tmp/seed-out/$pid
+pid=$1; tier=${2:-quick}; out=${SEED_OUT:-/tmp/seed-out}/$pid
 [ -f $out/patch.diff ] || { echo "no patch"; exit 2; }
 echo "== demo on /repo (expect PASS):"; PYTHONPATH=/repo timeout 120 /venv/bin/python $out/demo.py 2>&1 | tail -2; echo "rc=$?"
 echo "== demo with patch (expect FAIL):"; /verif/tools/withpatch.sh $out/patch.diff -- bash -c 'PYTHONPATH=$VERIF_REPO timeout 120 /venv/bin/python '$out'/demo.py 2>&1 | tail -2; echo rc=${PIPESTATUS[0]}'
